@@ -208,6 +208,8 @@ func (e BridgeEngine) Finish(r *Run) []Violation {
 		return c.c06.finish(r, c)
 	case "C13":
 		return c.c13.finish(r, c)
+	case "C04":
+		return c.c04.finish(r, c)
 	}
 	return nil
 }
